@@ -16,41 +16,18 @@ Structure of the argument (DESIGN §4 C18):
   by a commit is unreachable from the root of that commit and of every later commit; this covers
   partition reset, deletion of whole entities and re-creation, because those only matter through the
   four facts);
-* model: `puts_fresh_*` prove (fresh) for every `put_node` the transcribed algorithm emits.
+* model: `fresh_keys` proves (fresh) for every `put_node` that the transcribed `put_at_next_version`
+  emits in any of the three tiers, and that the version strictly increases.
 
-Partial: (old), (prune) and (mono) are NOT proved for the model; they are evaluated on the real
+Partial: (old), (prune) and (mono) are NOT proved for the model (`Lemmas/JmtFresh.lean` has (fresh)); they are evaluated on the real
 implementation by the harness oracle after every commit (keys `stale-not-older`, `pruned-not-stale`,
 `reach-not-mono`, plus the direct statements `reachable-node-missing`, `stale-node-reachable-*`), and
 the model's store content is compared with the real store after every commit.
 -/
-import RadixModel.Model.JmtStore
+import RadixModel.Lemmas.JmtHist
+import RadixModel.Lemmas.JmtFresh
 
 namespace Radix.Jmt
-
-/-- What one commit does, abstractly (sets of node keys). -/
-structure Step where
-  version : Nat
-  new : NodeKey → Prop      -- inserted by the commit
-  stale : NodeKey → Prop    -- covered by the stale parts the commit reports
-  pruned : NodeKey → Prop   -- actually deleted from the store during the commit
-  reach : NodeKey → Prop    -- reachable from the root the commit produces
-
-/-- State after a history (latest commit first): current version, reachable set, store content. -/
-def stateOf : List Step → Nat × (NodeKey → Prop) × (NodeKey → Prop)
-  | [] => (0, (fun _ => False), (fun _ => False))
-  | s :: older => (s.version, s.reach, fun k => ((stateOf older).2.2 k ∨ s.new k) ∧ ¬ s.pruned k)
-
-/-- The per-commit facts. -/
-def StepOK (prevVersion : Nat) (prevReach : NodeKey → Prop) (s : Step) : Prop :=
-  prevVersion < s.version ∧
-  (∀ k, s.new k → k.1 = s.version) ∧
-  (∀ k, s.stale k → k.1 < s.version) ∧
-  (∀ k, s.pruned k → s.stale k) ∧
-  (∀ k, s.reach k → (prevReach k ∧ ¬ s.stale k) ∨ s.new k)
-
-def WF : List Step → Prop
-  | [] => True
-  | s :: older => WF older ∧ StepOK (stateOf older).1 (stateOf older).2.1 s
 
 /-- **current_tree_present.** After any history, every node reachable from the current root is in
 the store (with pruning enabled or not). -/
@@ -67,31 +44,6 @@ theorem current_tree_present : ∀ (h : List Step), WF h →
     · exact ⟨Or.inl (ih hold k hprev), fun hp => hns (hpr k hp)⟩
     · refine ⟨Or.inr hn, fun hp => ?_⟩
       have := hstale k (hpr k hp); have := hnew k hn; omega
-
-theorem wf_tail (s' : Step) (l : List Step) (h : WF (s' :: l)) :
-    WF l ∧ StepOK (stateOf l).1 (stateOf l).2.1 s' := h
-
-theorem version_mono : ∀ (newer : List Step) (s : Step) (older : List Step),
-    WF (newer ++ s :: older) → s.version ≤ (stateOf (newer ++ s :: older)).1 := by
-  intro newer
-  induction newer with
-  | nil => intro s older _; exact Nat.le_refl _
-  | cons s' newer ih =>
-    intro s older hwf
-    obtain ⟨hwf', hok⟩ := wf_tail s' (newer ++ s :: older) hwf
-    have := ih s older hwf'
-    have hlt := hok.1
-    show s.version ≤ s'.version
-    omega
-
-theorem stale_old : ∀ (newer : List Step) (s : Step) (older : List Step),
-    WF (newer ++ s :: older) → ∀ k, s.stale k → k.1 < s.version := by
-  intro newer
-  induction newer with
-  | nil => intro s older hwf k hst; exact (wf_tail s older hwf).2.2.2.1 k hst
-  | cons s' newer ih =>
-    intro s older hwf k hst
-    exact ih s older (wf_tail s' (newer ++ s :: older) hwf).1 k hst
 
 /-- **stale_unreachable_later.** A node reported stale by a commit is unreachable from the root
 produced by that commit and from the root produced by every later commit. -/
@@ -114,6 +66,30 @@ theorem stale_unreachable_later : ∀ (newer : List Step) (s : Step) (older : Li
       have h2 := stale_old newer s older hwf' k hst
       have := hnew k hn
       omega
+
+/-- **fresh_keys.** Every node inserted by a commit of the transcribed `put_at_next_version`
+(in the entity, partition and substate tiers, including re-inserted leaves and `Null` roots) is keyed
+with the commit's new version, which is strictly larger than the previous root version — hence an
+insert never overwrites a node of an older tree. -/
+theorem fresh_keys (H : List UInt8 → Hash) (st st' : State) (ups : DbUpdates) (h : Hash) (evs : List Ev)
+    (hr : putAtNextVersion H st ups = .ok (st', h, evs)) :
+    (∀ k n, Ev.put k n ∈ evs → k.1 = st.rootVersion.getD 0 + 1) ∧
+    st'.rootVersion = some (st.rootVersion.getD 0 + 1) ∧
+    (∀ pv, st.rootVersion = some pv → pv < st.rootVersion.getD 0 + 1) := by
+  unfold putAtNextVersion at hr
+  simp only at hr
+  split at hr
+  · cases hr
+  · rename_i kvs evs1 hl
+    split at hr
+    · cases hr
+    · rename_i root evs2 hp
+      injection hr with hr; injection hr with h1 h2; injection h2 with h2 h3
+      subst h1; subst h3
+      refine ⟨?_, rfl, ?_⟩
+      · exact freshE_append _ _ _ (entityLeafUpdates_fresh H _ _ _ ups kvs evs1 hl)
+          (putTier_fresh H _ _ _ _ _ root evs2 hp)
+      · intro pv hpv; rw [hpv]; simp
 
 /-! Non-vacuity: a two-commit history (insert a root, replace it) satisfying `WF`. -/
 example : WF
